@@ -4,7 +4,8 @@
    exactly as the constructor does (coerce_pair).  Aware datetimes of one zone object behave as
    naive ones in CPython and are covered by the correspondence only. *)
 From Coq Require Import ZArith List Bool.
-From V Require Import base.Cal gen.RdTables rd.RdBase rd.RdModel rd.RdSpec rd.RdAddThm rd.RdDiffThm.
+From V Require Import base.Cal gen.RdTables rd.RdBase rd.RdModel rd.RdSpec rd.RdAddThm rd.RdDiffThm
+  rd.RdAwareModel rd.RdAwareThm.
 Open Scope Z_scope.
 
 (* dt2 + relativedelta(dt1, dt2) = dt1, with the model of __add__ *)
@@ -49,3 +50,58 @@ Theorem C09_diff_self_empty : forall dt1 dt2, valid_dt dt1 = true -> valid_dt dt
   exists d, mk_diff dt1 dt2 = Ok d /\ rd_empty d = true.
 Proof. exact diff_self_empty. Qed.
 Print Assumptions C09_diff_self_empty.
+
+(* the law on the operands as given: a date dt2 stays a date unless the difference carries time;
+   dates and datetimes are compared after midnight promotion *)
+Theorem C09_diff_inverse_uncoerced : forall dt1 dt2, valid_dt dt1 = true -> valid_dt dt2 = true ->
+  exists d r, mk_diff dt1 dt2 = Ok d /\ add_dt d dt2 = Ok r /\ promote r = promote dt1.
+Proof. exact diff_inverse_uncoerced. Qed.
+Print Assumptions C09_diff_inverse_uncoerced.
+
+(* the model's comparison of operands (position on the time line) is CPython's lexicographic order *)
+Theorem C09_order_date : forall y m d y' m' d',
+  valid_dt (PD y m d) = true -> valid_dt (PD y' m' d') = true ->
+  (lin (PD y m d) < lin (PD y' m' d') <-> lex_lt_ymd y m d y' m' d').
+Proof. exact lin_lt_lex_date. Qed.
+Print Assumptions C09_order_date.
+
+Theorem C09_order_datetime : forall y m d hh mi ss us y' m' d' hh' mi' ss' us',
+  valid_dt (PDT y m d hh mi ss us) = true -> valid_dt (PDT y' m' d' hh' mi' ss' us') = true ->
+  (lin (PDT y m d hh mi ss us) < lin (PDT y' m' d' hh' mi' ss' us') <->
+   lex_lt_ymd y m d y' m' d' \/
+   ((y, m, d) = (y', m', d') /\
+    (hh < hh' \/ (hh = hh' /\ (mi < mi' \/ (mi = mi' /\ (ss < ss' \/ (ss = ss' /\ us < us')))))))).
+Proof. exact lin_lt_lex_datetime. Qed.
+Print Assumptions C09_order_datetime.
+
+(* aware operands whose tzinfo attributes are DISTINCT objects of one zone (RdAwareModel: CPython
+   then compares/subtracts UTC instants).  Guard: the zone's utcoffset is constant -> the result is
+   the naive one and every theorem above applies.  Without the guard the inverse law is refuted
+   (finding F-C09-distinct-tzinfo: New York, 7 March 12:00 -> 9 March 12:00 across the DST start). *)
+Theorem C09_aware_distinct_const_offset :
+  forall off f y1 m1 d1 hh1 mi1 ss1 us1 y2 m2 d2 hh2 mi2 ss2 us2,
+  (forall l, off l = Some f) ->
+  mk_diff_aware off (PDT y1 m1 d1 hh1 mi1 ss1 us1) (PDT y2 m2 d2 hh2 mi2 ss2 us2)
+  = mk_diff (PDT y1 m1 d1 hh1 mi1 ss1 us1) (PDT y2 m2 d2 hh2 mi2 ss2 us2).
+Proof. exact mk_diff_aware_const. Qed.
+Print Assumptions C09_aware_distinct_const_offset.
+
+Theorem C09_diff_inverse_distinct_tzinfo_refuted :
+  exists off dt1 dt2 d r,
+    valid_dt dt1 = true /\ valid_dt dt2 = true /\
+    mk_diff_aware off dt1 dt2 = Ok d /\ add_dt d dt2 = Ok r /\ r <> dt1.
+Proof. exact diff_inverse_distinct_tzinfo_refuted. Qed.
+Print Assumptions C09_diff_inverse_distinct_tzinfo_refuted.
+
+(* the sharper guard, for any zone: same utcoffset at dt1, at dt2 and at the (at most 7) whole-month
+   shifts of dt2 the constructor can reach -- exactly the wall values whose utcoffsets the check
+   records as "utcoffsets_us_consulted" *)
+Theorem C09_aware_distinct_local :
+  forall off f y1 m1 d1 hh1 mi1 ss1 us1 y2 m2 d2 hh2 mi2 ss2 us2,
+  let dt1 := PDT y1 m1 d1 hh1 mi1 ss1 us1 in
+  let dt2 := PDT y2 m2 d2 hh2 mi2 ss2 us2 in
+  valid_dt dt2 = true -> off (lin dt1) = Some f -> off (lin dt2) = Some f ->
+  (forall k, Z.abs (k - (mi dt1 - mi dt2)) <= 3 -> off (lin (shifted dt2 k)) = Some f) ->
+  mk_diff_aware off dt1 dt2 = mk_diff dt1 dt2.
+Proof. exact mk_diff_aware_local. Qed.
+Print Assumptions C09_aware_distinct_local.
